@@ -70,6 +70,11 @@ def harnesses(tier):
         if h['name'].startswith('c04_nesting_html_') or h['name'].startswith('c04_nesting_opendocument_'):
             h = dict(h); h['name'] = 'c08' + h['name'][3:]
             hs.append(h)
+    hs.append(dict(name='c08_odf_link_image_shape', src='c08/odfobj.c', pool_off=True,
+                   units=[dict(src='repo:opendocument-content.c', remove=['mmd_export_token_tree_opendocument', 'mmd_print_string_opendocument'], cflags=['-include', 'vh_libc.h']), 'repo:token.c', 'repo:object_pool.c', 'repo:char.c', 'common/ds_sink.c'],
+                   nobody_ok='*', ignore_failed=['no-body'], unwind=12, unwindset=['d_string_append.0:230', 'd_string_append_c_array.0:230', 'd_string_append_printf.0:80', 'd_string_append_printf.2:40'], timeout=600, mem_gb=6, functional=True, replay=False,
+                   bounds='link / image x destination present or absent x title x width/height attributes (hostile values) x figure/inline x stored asset or not',
+                   desc='mmd_export_link_opendocument / mmd_export_image_opendocument: balanced XML for every link record shape; attribute values only through the escaper'))
     hs.append(dict(name='c08_epub_members', src='c08/epubmeta.c', defs=dict(DS_SINK_PTR=1), pool_off=True,
                    units=[dict(src='repo:epub.c', cflags=['-include', 'verif_uthash.h'], remove=['epub_export_nav']), 'common/ds_sink.c'],
                    nobody_ok='*', ignore_failed=['no-body'], unwind=120, timeout=600, mem_gb=4, functional=True, replay=False,
